@@ -36,11 +36,14 @@ package mount
 // raw child sequence remount it read-only); every bind is nosuid; tmpfs is nosuid|nodev; proc is
 // nosuid|nodev|noexec and read-only unless asked otherwise. MS_RDONLY 1, MS_NOSUID 2, MS_NODEV 4,
 // MS_NOEXEC 8, MS_BIND 4096, MS_REMOUNT 32.
+//@ macro mounts_kept() = forall k int :: 0 <= k && k < len(old(b.Mounts)) ==> b.Mounts[k].Source == old(b.Mounts[k].Source) && b.Mounts[k].Target == old(b.Mounts[k].Target) && b.Mounts[k].FsType == old(b.Mounts[k].FsType) && b.Mounts[k].Flags == old(b.Mounts[k].Flags) && b.Mounts[k].Data == old(b.Mounts[k].Data)
 //@ func pkg/mount.(*Builder).WithBind props C05
 //@   arith bv
 //@   requires b != nil
 //@   assigns b.Mounts
 //@   ensures result == b && len(b.Mounts) == len(old(b.Mounts)) + 1
+//@   ensures mounts_kept()
+//@   ensures fresh(b.Mounts) || (sarr(b.Mounts) == old(sarr(b.Mounts)) && cap(old(b.Mounts)) > len(old(b.Mounts)))
 //@   ensures b.Mounts[len(b.Mounts) - 1].Source == source && b.Mounts[len(b.Mounts) - 1].Target == target
 //@   ensures b.Mounts[len(b.Mounts) - 1].Flags & 4096 == 4096 && b.Mounts[len(b.Mounts) - 1].Flags & 2 == 2 && b.Mounts[len(b.Mounts) - 1].Flags & 32 == 0
 //@   ensures readonly <==> b.Mounts[len(b.Mounts) - 1].Flags & 1 == 1
@@ -50,6 +53,8 @@ package mount
 //@   requires b != nil
 //@   assigns b.Mounts
 //@   ensures result == b && len(b.Mounts) == len(old(b.Mounts)) + 1
+//@   ensures mounts_kept()
+//@   ensures fresh(b.Mounts) || (sarr(b.Mounts) == old(sarr(b.Mounts)) && cap(old(b.Mounts)) > len(old(b.Mounts)))
 //@   ensures b.Mounts[len(b.Mounts) - 1].Target == target && b.Mounts[len(b.Mounts) - 1].FsType == "tmpfs" && b.Mounts[len(b.Mounts) - 1].Data == data
 //@   ensures b.Mounts[len(b.Mounts) - 1].Flags & 6 == 6 && b.Mounts[len(b.Mounts) - 1].Flags & 4129 == 0
 
@@ -58,6 +63,8 @@ package mount
 //@   requires b != nil
 //@   assigns b.Mounts
 //@   ensures result == b && len(b.Mounts) == len(old(b.Mounts)) + 1
+//@   ensures mounts_kept()
+//@   ensures fresh(b.Mounts) || (sarr(b.Mounts) == old(sarr(b.Mounts)) && cap(old(b.Mounts)) > len(old(b.Mounts)))
 //@   ensures b.Mounts[len(b.Mounts) - 1].FsType == "proc" && b.Mounts[len(b.Mounts) - 1].Flags & 14 == 14
 //@   ensures !canWrite <==> b.Mounts[len(b.Mounts) - 1].Flags & 1 == 1
 
@@ -93,3 +100,45 @@ package mount
 //@   ensures result.1 == nil ==> forall k int :: 0 <= k && k < len(b.Mounts) ==> result.0[k].Flags == b.Mounts[k].Flags && cstr(result.0[k].Source) == b.Mounts[k].Source && cstr(result.0[k].Target) == b.Mounts[k].Target && cstr(result.0[k].FsType) == b.Mounts[k].FsType
 //@   loop 0: invariant -1 <= rangeindex && rangeindex < len(b.Mounts) && len(ret) == rangeindex + 1 && cap(ret) == len(b.Mounts) && (fresh(ret) || cap(ret) == 0) && soff(ret) == 0
 //@   loop 0: invariant forall k int :: 0 <= k && k <= rangeindex ==> ret[k].Flags == b.Mounts[k].Flags && cstr(ret[k].Source) == b.Mounts[k].Source && cstr(ret[k].Target) == b.Mounts[k].Target && cstr(ret[k].FsType) == b.Mounts[k].FsType
+
+// The remaining builder methods (C05). NewDefaultBuilder: the default root file system is four read-only,
+// nosuid bind mounts of /usr, /lib, /lib64, /bin. WithProc: proc is read-only. WithMount(s): appended as given.
+// FilterNotExist compacts in place: every entry it keeps is one of the entries it was given, unchanged,
+// and nothing that is not a bind mount is dropped.
+//@ func pkg/mount.NewBuilder props C05
+//@   arith int
+//@   assigns nothing
+//@   ensures result != nil && fresh(result) && len(result.Mounts) == 0 && cap(result.Mounts) == 0
+//@ func pkg/mount.NewDefaultBuilder props C05
+//@   arith bv
+//@   assigns nothing
+//@   ensures result != nil && fresh(result) && len(result.Mounts) == 4
+//@   ensures fresh(result.Mounts)
+//@   ensures result.Mounts[0].Source == "/usr" && result.Mounts[0].Target == "usr" && result.Mounts[1].Source == "/lib" && result.Mounts[1].Target == "lib"
+//@   ensures result.Mounts[2].Source == "/lib64" && result.Mounts[2].Target == "lib64" && result.Mounts[3].Source == "/bin" && result.Mounts[3].Target == "bin"
+//@   ensures forall k int :: 0 <= k && k < 4 ==> result.Mounts[k].Flags & 4099 == 4099 && result.Mounts[k].Flags & 32 == 0
+//@ func pkg/mount.(*Builder).WithProc props C05
+//@   arith bv
+//@   requires b != nil
+//@   assigns b.Mounts
+//@   ensures result == b && len(b.Mounts) == len(old(b.Mounts)) + 1
+//@   ensures mounts_kept()
+//@   ensures fresh(b.Mounts) || (sarr(b.Mounts) == old(sarr(b.Mounts)) && cap(old(b.Mounts)) > len(old(b.Mounts)))
+//@   ensures b.Mounts[len(b.Mounts) - 1].FsType == "proc" && b.Mounts[len(b.Mounts) - 1].Flags & 15 == 15
+//@ func pkg/mount.(*Builder).WithMount props C05
+//@   arith int
+//@   requires b != nil
+//@   assigns b.Mounts
+//@   ensures result == b && len(b.Mounts) == len(old(b.Mounts)) + 1
+//@   ensures mounts_kept()
+//@   ensures fresh(b.Mounts) || (sarr(b.Mounts) == old(sarr(b.Mounts)) && cap(old(b.Mounts)) > len(old(b.Mounts)))
+//@   ensures b.Mounts[len(b.Mounts) - 1].Source == m.Source && b.Mounts[len(b.Mounts) - 1].Target == m.Target && b.Mounts[len(b.Mounts) - 1].FsType == m.FsType && b.Mounts[len(b.Mounts) - 1].Flags == m.Flags && b.Mounts[len(b.Mounts) - 1].Data == m.Data
+//@ func pkg/mount.(*Builder).FilterNotExist props C05
+//@   arith int
+//@   requires b != nil
+//@   assigns b.Mounts, all(b.Mounts)
+//@   ensures result == b && len(b.Mounts) <= len(old(b.Mounts)) && sarr(b.Mounts) == old(sarr(b.Mounts))
+//@   ensures forall k int :: 0 <= k && k < len(b.Mounts) ==> exists j int :: k <= j && j < len(old(b.Mounts)) && b.Mounts[k].Source == old(b.Mounts[j].Source) && b.Mounts[k].Target == old(b.Mounts[j].Target) && b.Mounts[k].FsType == old(b.Mounts[j].FsType) && b.Mounts[k].Flags == old(b.Mounts[j].Flags) && b.Mounts[k].Data == old(b.Mounts[j].Data)
+//@   loop 0: invariant -1 <= rangeindex && rangeindex < len(old(b.Mounts)) && len(rt) <= rangeindex + 1 && sarr(rt) == sarr(old(b.Mounts)) && soff(rt) == soff(old(b.Mounts)) && cap(rt) == cap(old(b.Mounts)) && b.Mounts == old(b.Mounts)
+//@   loop 0: invariant forall j int :: rangeindex < j && j < len(old(b.Mounts)) ==> old(b.Mounts)[j].Source == old(b.Mounts[j].Source) && old(b.Mounts)[j].Target == old(b.Mounts[j].Target) && old(b.Mounts)[j].FsType == old(b.Mounts[j].FsType) && old(b.Mounts)[j].Flags == old(b.Mounts[j].Flags) && old(b.Mounts)[j].Data == old(b.Mounts[j].Data)
+//@   loop 0: invariant forall k int :: 0 <= k && k < len(rt) ==> exists j int :: k <= j && j <= rangeindex && rt[k].Source == old(b.Mounts[j].Source) && rt[k].Target == old(b.Mounts[j].Target) && rt[k].FsType == old(b.Mounts[j].FsType) && rt[k].Flags == old(b.Mounts[j].Flags) && rt[k].Data == old(b.Mounts[j].Data)
